@@ -288,16 +288,16 @@ func mapAttributeValueToTypes(attrs map[string]*dynamodb.AttributeValue) map[str
 		}
 
 		mapItems[key] = &types.Item{
-			B:    attr.B,
-			BOOL: attr.BOOL,
-			BS:   attr.BS,
+			B:    cloneBytes(attr.B),
+			BOOL: cloneBool(attr.BOOL),
+			BS:   cloneByteSlices(attr.BS),
 			L:    mapAttributeValueListToTypes(attr.L),
 			M:    mapAttributeValueToTypes(attr.M),
-			N:    attr.N,
-			NS:   attr.NS,
-			NULL: attr.NULL,
-			S:    attr.S,
-			SS:   attr.SS,
+			N:    cloneString(attr.N),
+			NS:   cloneStrings(attr.NS),
+			NULL: cloneBool(attr.NULL),
+			S:    cloneString(attr.S),
+			SS:   cloneStrings(attr.SS),
 		}
 	}
 
@@ -317,16 +317,16 @@ func mapAttributeValueListToTypes(attrs []*dynamodb.AttributeValue) []*types.Ite
 		}
 
 		mapItems[i] = &types.Item{
-			B:    attr.B,
-			BOOL: attr.BOOL,
-			BS:   attr.BS,
+			B:    cloneBytes(attr.B),
+			BOOL: cloneBool(attr.BOOL),
+			BS:   cloneByteSlices(attr.BS),
 			L:    mapAttributeValueListToTypes(attr.L),
 			M:    mapAttributeValueToTypes(attr.M),
-			N:    attr.N,
-			NS:   attr.NS,
-			NULL: attr.NULL,
-			S:    attr.S,
-			SS:   attr.SS,
+			N:    cloneString(attr.N),
+			NS:   cloneStrings(attr.NS),
+			NULL: cloneBool(attr.NULL),
+			S:    cloneString(attr.S),
+			SS:   cloneStrings(attr.SS),
 		}
 	}
 
@@ -342,16 +342,16 @@ func mapAttributeValueToDynamodb(attrs map[string]*types.Item) map[string]*dynam
 
 	for key, attr := range attrs {
 		mapItems[key] = &dynamodb.AttributeValue{
-			B:    attr.B,
-			BOOL: attr.BOOL,
-			BS:   attr.BS,
+			B:    cloneBytes(attr.B),
+			BOOL: cloneBool(attr.BOOL),
+			BS:   cloneByteSlices(attr.BS),
 			L:    mapAttributeValueListToDynamodb(attr.L),
 			M:    mapAttributeValueToDynamodb(attr.M),
-			N:    attr.N,
-			NS:   attr.NS,
-			NULL: attr.NULL,
-			S:    attr.S,
-			SS:   attr.SS,
+			N:    cloneString(attr.N),
+			NS:   cloneStrings(attr.NS),
+			NULL: cloneBool(attr.NULL),
+			S:    cloneString(attr.S),
+			SS:   cloneStrings(attr.SS),
 		}
 	}
 
@@ -377,18 +377,78 @@ func mapAttributeValueListToDynamodb(attrs []*types.Item) []*dynamodb.AttributeV
 
 	for i, attr := range attrs {
 		mapItems[i] = &dynamodb.AttributeValue{
-			B:    attr.B,
-			BOOL: attr.BOOL,
-			BS:   attr.BS,
+			B:    cloneBytes(attr.B),
+			BOOL: cloneBool(attr.BOOL),
+			BS:   cloneByteSlices(attr.BS),
 			L:    mapAttributeValueListToDynamodb(attr.L),
 			M:    mapAttributeValueToDynamodb(attr.M),
-			N:    attr.N,
-			NS:   attr.NS,
-			NULL: attr.NULL,
-			S:    attr.S,
-			SS:   attr.SS,
+			N:    cloneString(attr.N),
+			NS:   cloneStrings(attr.NS),
+			NULL: cloneBool(attr.NULL),
+			S:    cloneString(attr.S),
+			SS:   cloneStrings(attr.SS),
 		}
 	}
 
 	return mapItems
+}
+
+// the stored items must not share memory with the structures of the caller: every pointer target and slice that
+// crosses the API is copied
+
+func cloneString(s *string) *string {
+	if s == nil {
+		return nil
+	}
+
+	c := *s
+
+	return &c
+}
+
+func cloneBool(b *bool) *bool {
+	if b == nil {
+		return nil
+	}
+
+	c := *b
+
+	return &c
+}
+
+func cloneBytes(b []byte) []byte {
+	if b == nil {
+		return nil
+	}
+
+	c := make([]byte, len(b))
+	copy(c, b)
+
+	return c
+}
+
+func cloneStrings(l []*string) []*string {
+	if l == nil {
+		return nil
+	}
+
+	c := make([]*string, len(l))
+	for i, s := range l {
+		c[i] = cloneString(s)
+	}
+
+	return c
+}
+
+func cloneByteSlices(l [][]byte) [][]byte {
+	if l == nil {
+		return nil
+	}
+
+	c := make([][]byte, len(l))
+	for i, b := range l {
+		c[i] = cloneBytes(b)
+	}
+
+	return c
 }
